@@ -23,6 +23,8 @@ SYM_ORDER = {'': 1, '-': 1, '=': 2, '#': 3, '$': 4, '.': 0}
 LABELS = ['', '', 'a', 'A', 'ab', 'A1', 'x2', '1A', '1', '12', 'b']
 KINDS = ['$', '$', '>', '<', '!']
 
+FUZZ = dict(campaigns=8, runs=2500)
+
 
 def budget(tier):
     if tier == 'thorough':
